@@ -203,6 +203,7 @@ type histChecker struct {
 	// accepted although the model has no direct application for it -> the history is cut.
 	lenientMutations bool
 	ignoreReads      bool // read-type operations are executed but not judged (C06 judges the remote only)
+	noSize           bool // Lstat sizes are those of the stored (encrypted) bytes: not compared
 }
 
 type snap struct {
@@ -271,6 +272,9 @@ func (h *histChecker) step(i int, op FsOp) *Failure {
 		return nil
 	}
 	exp := h.model.Expectation(v.prefix, op)
+	if h.noSize {
+		exp.Size = -1
+	}
 	var r FsResult
 	if op.Kind == "WriteFile" {
 		buf := []byte(op.Data)
@@ -381,6 +385,9 @@ func (h *histChecker) compareState(i int, op FsOp, r *Rand) *Failure {
 			v := h.views[vi]
 			qop := FsOp{Kind: kind, Path: spell(r, segs), View: vi}
 			exp := h.model.Expectation(v.prefix, qop)
+			if h.noSize {
+				exp.Size = -1
+			}
 			res := RunFsOp(v.fs, qop)
 			if c, m := Judge(exp, qop, res); c != "" {
 				return h.fail(c, "query:"+kind, "then "+m, i, op)
